@@ -87,7 +87,7 @@ CLAIMED = {
         "DESIGN.md §6 C11",
     ),
     "C12": (
-        "runtime monitor, conservation checker: the horizontal list before and after the real break_line, the breakpoints and the produced vertical list are checked offline: text -> list spells the words with inter-word glue equal to a transcription of TeX §1041-1044; list -> lines by two formulations that must agree (exact expected content per line; cursor walk consuming each node exactly once in order); geometry, skips (§816/§886-887) and inter-line penalties (§890); libFuzzer stage (thorough tier) whose inputs are decided by the same oracle",
+        "runtime monitor, conservation checker: the horizontal list before and after the real break_line, the breakpoints and the produced vertical list are checked offline: text -> list spells the words with inter-word glue equal to a transcription of TeX §1041-1044; list -> lines by two formulations that must agree (exact expected content per line; cursor walk consuming each node exactly once in order); geometry, skips (§816/§886-887) and inter-line penalties (§890); libFuzzer stage (thorough tier) whose inputs are decided by the same oracle; CLI stage (both tiers): the box binary built from the working tree must hand 22 skip texts x 4 flags on to the printed line boxes exactly as given",
         "Held on the executions produced: exhaustive space-factor words (2336) and lists of <=6 items (137 256), 1.5e5 / 3e6 random cmr10 texts with random \\spaceskip/\\xspaceskip/sfcodes/widths/indents/all 17 Knuth-Plass parameters (hyphenation on in 2/3), 3e5 / 6e6 hand-built lists with runs of glue/penalty/kern and discretionaries.",
         "Calibrated on the repository's 20-row spacing table and 29 TeX-generated goldens (509 line boxes); the hyphenator and the breaker's choice of breakpoints are black boxes here (C13/C14, C04); interline glue presence only; math/mark/insert/adjust nodes excluded (todo!() in hpack).",
         "DESIGN.md §6 C12",
